@@ -374,9 +374,18 @@ Definition pred_c07 (g : ghost) (w : world) (a : action) (O : oracle) (w' : worl
           | _, _ => []
           end
       | RLogin | ROtpLogin =>
-          (* a cookie is only issued when asked for *)
+          (* a cookie is only issued when asked for, and for the account that just logged in *)
           if obytes_eq (alookup k_rm (cook_of w b)) (alookup k_rm (io_cook i)) then []
-          else if ahas k_rm (io_cook i) && negb (beqb (aget k_rm (values_of r)) v_true) then [1073] else []
+          else if ahas k_rm (io_cook i) && negb (beqb (aget k_rm (values_of r)) v_true) then [1073]
+          else match alookup k_rm (io_cook i), after with
+               | Some c, Some U =>
+                   match b64url_dec c with
+                   | Some raw => if bprefix (U ++ [";"%byte]) raw && bmem (sx raw) (rm_of_i i U) then [] else [1079]
+                   | None => [1079]
+                   end
+               | Some _, None => [1079]
+               | None, _ => []
+               end
       | _ => []
       end
   | _ => []
@@ -544,20 +553,26 @@ Definition pred_c19 (g : ghost) (w : world) (a : action) (O : oracle) (w' : worl
           let should_create := policy_ok && (length pw <=? 72)%nat && negb (existsb (fun u => beqb (u_pid u) pid) pre) in
           let before := uid_in (sess_of w (q_browser r)) in
           let after := uid_in (io_sess i) in
+          let nofault := match o_faults O with [] => true | _ => false end in
+          let created := match iuser_of i pid with
+                         | Some _ => negb (existsb (fun u => beqb (u_pid u) pid) pre)
+                         | None => false end in
           (* existing records never change *)
           (if forallb (fun u => match iuser_of i (u_pid u) with Some u' => user_eqb u u' | None => false end) pre then [] else [119]) ++
-          (if should_create then
+          (if created then
              match iuser_of i pid with
              | Some u' =>
+                 (if should_create then [] else [1199]) ++
                  (if (length post =? S (length pre))%nat then [] else [1191]) ++
                  (if beqb (u_password u') (px pw) then [] else [1192]) ++
                  (if forallb (fun kv => bmem (fst kv) [f_email]) (u_arb u') then [] else [1193]) ++
                  (if has_mod cfg MConfirm
                   then (if negb (u_confirmed u') && obytes_eq before after then [] else [1194])
-                  else (if obytes_eq after (Some pid) then [] else [1195]))
-             | None => [1196]
+                  else (if obytes_eq after (Some pid) || negb nofault && obytes_eq before after then [] else [1195]))
+             | None => []
              end
            else
+             (if should_create && nofault then [1196] else []) ++
              (if (length post =? length pre)%nat then [] else [1197]) ++
              (if obytes_eq before after then [] else [1198]))
       | _, _ => []
